@@ -356,3 +356,76 @@ Proof. vm_compute. split; reflexivity. Qed.
 Print Assumptions C07_stl_to_vtt_styled.
 Print Assumptions C07_stl_to_ttml_styled.
 Print Assumptions C07_stl_to_ttml_styled_doc.
+(* STYLED teletext sources into the five writers (Model/ConvTtx.v; byte-level correspondence against the library through
+   the file API in harness/plain_ttx.go, suite convstyledttx).  ds is ANY delivered list the reader accepts
+   (ttx_feed 0 ds = Ok cs: page auto-detection; with C06_stream_page_auto cs is cues_of for every stream of the class of
+   C06): colour codes, double height / width / size, several runs per row, spaces in front of and behind the texts.
+   conv_ttx_F is what the library hands to the writer of F: per run the text (the reader trimmed it) and a non-nil style
+   carrying the teletext colour and size flags.  What each writer does with it, exactly:
+   - srt, ssa: no teletext attribute is written (none of the four SubRip attributes / no override block); the runs of a line
+     are written one after the other.  vtt: same, a colour the writer has a class for becomes <c.CLASS>..</c>.  The bytes are
+     those of the PLAIN document whose line text is the run texts put together with NOTHING in between (ttx_to_plain): the
+     file reads back as ptrunc unit (ttx_to_plain cs).  No byte of text is lost; a word boundary that was on the page only as
+     the attribute cell (displayed as a space) between two runs, or as spaces next to it, is not in the run texts the reader
+     returns and so is not in the file: "Hello" <red> "red" reads back "Hellored".  This is inside C07's tolerance ("the same
+     text once inter-run whitespace is disregarded") and is recorded as an observation in notes/C06.md.
+   - stl: the writer joins the runs of a line with ONE space: the file reads back as the run texts joined with a single
+     space (ttx_to_plain_spaced), whatever number of spaces / attribute cells was between them on the page; the two views
+     are equal once spaces are disregarded (C07_ttx_spaced_nosp: the normalisation is "delete every byte 0x20").
+   - ttml: one span per run (tts:color from the teletext colour), reads back with the run texts put together.
+   runs_whole: no run text ends with the byte 0xC2 (the writers escape each run on its own and U+00A0 = C2 A0 is the only
+   escaped sequence longer than a byte; run texts of the reader are whole characters).
+   WebVTT is PARTIAL: proved for cues whose runs have no colour or one without a WebVTT class (black, green, blue, white);
+   the full statement is the same without cues_classless.  Red / yellow / magenta / cyan: correspondence only. *)
+From Astisub Require Import Model.TtxRow Model.Ttx Model.ConvTtx Proofs.ConvTtxProofs Proofs.ConvTtxProofs2 Proofs.ConvTtxExamples.
+Theorem C07_ttx_to_srt_styled : forall ds cs, ttx_feed 0 ds = Ok cs -> runs_whole cs = true -> srt_plain_ok (ttx_to_plain cs) ->
+  exists dst, convert_ttx_srt ds = Ok dst /\ srt_dec dst = Ok (ptrunc 1000000 (ttx_to_plain cs)).
+Proof. exact ttx_to_srt_styled. Qed.
+Print Assumptions C07_ttx_to_srt_styled.
+Theorem C07_ttx_to_ssa_styled : forall ds cs, ttx_feed 0 ds = Ok cs -> ssa_plain_ok (ttx_to_plain cs) ->
+  exists dst, convert_ttx_ssa ds = Ok dst /\ ssa_dec dst = Ok (ptrunc ssa_unit (ttx_to_plain cs)).
+Proof. exact ttx_to_ssa_styled. Qed.
+Print Assumptions C07_ttx_to_ssa_styled.
+Theorem C07_ttx_to_ttml_styled : forall ds cs, ttx_feed 0 ds = Ok cs -> TtmlDocSpec.repr_doc (conv_ttx_ttml cs) = true ->
+  exists dst d', convert_ttx_ttml ds = Ok dst /\ read_ttml_bytes dst = Ok d' /\ ttml_to_plain d' = ptrunc 1000000 (ttx_to_plain cs).
+Proof. exact ttx_to_ttml_styled. Qed.
+Print Assumptions C07_ttx_to_ttml_styled.
+Theorem C07_ttx_to_stl_styled : forall ds cs, ttx_feed 0 ds = Ok cs -> stl_plain_ok (ttx_to_plain_spaced cs) ->
+  exists dst, convert_ttx_stl ds = Ok dst /\ stl_dec dst = Ok (ptrunc stl_plain_unit (ttx_to_plain_spaced cs)).
+Proof. exact ttx_to_stl_styled. Qed.
+Print Assumptions C07_ttx_to_stl_styled.
+Theorem C07_ttx_stl_single_run : forall cs, Forall (fun c => Forall (fun l : list trunT => length l = 1%nat) (c_lines c)) cs ->
+  ttx_to_plain_spaced cs = ttx_to_plain cs.
+Proof. exact spaced_single. Qed.
+Print Assumptions C07_ttx_stl_single_run.
+Theorem C07_ttx_spaced_nosp : forall cs, plain_nosp (ttx_to_plain_spaced cs) = plain_nosp (ttx_to_plain cs).
+Proof. exact spaced_nosp. Qed.
+Print Assumptions C07_ttx_spaced_nosp.
+Theorem C07_ttx_to_vtt_styled_partial : forall ds cs, ttx_feed 0 ds = Ok cs -> cues_classless cs = true -> runs_whole cs = true ->
+  vtt_plain_ok (ttx_to_plain cs) ->
+  exists dst, convert_ttx_vtt ds = Ok dst /\ vtt_dec dst = Ok (ptrunc 1000000 (ttx_to_plain cs)).
+Proof. exact ttx_to_vtt_styled_partial. Qed.
+Print Assumptions C07_ttx_to_vtt_styled_partial.
+(* non-vacuity: a two-cue page 888 stream: row 1 "Hello" / red "red" / white " white  ", row 2 double height green "green";
+   then cyan double size "BIG"; an erase page.  Three runs, one run, one run; the texts that come back written out *)
+Example C07_ttx_styled_example_source : ttx_feed 0 ex_styled = Ok ex_styled_cs /\
+  map (fun c => (c_st c, c_en c, map (map (fun r : trunT => (tr_text r, ts_color (tr_sty r), ts_dh (tr_sty r)))) (c_lines c))) ex_styled_cs =
+  [ (0%Z, 2000000000%Z, [ [([72;101;108;108;111], None, None); ([114;101;100], Some 1, None); ([119;104;105;116;101], Some 7, None)];
+                         [([103;114;101;101;110], Some 2, Some true)] ]);
+    (2000000000%Z, 3500000000%Z, [ [([66;73;71], Some 6, None)] ]) ]%N.
+Proof. split; [exact ex_styled_feed | exact ex_styled_shape]. Qed.
+Example C07_ttx_styled_example_srt : exists dst, convert_ttx_srt ex_styled = Ok dst /\
+  srt_dec dst = Ok [ (0%Z, 2000000000%Z, [[72;101;108;108;111;114;101;100;119;104;105;116;101]; [103;114;101;101;110]]); (2000000000%Z, 3500000000%Z, [[66;73;71]]) ]%N.
+Proof. exact ex_styled_to_srt. Qed.
+Example C07_ttx_styled_example_ssa : exists dst, convert_ttx_ssa ex_styled = Ok dst /\
+  ssa_dec dst = Ok [ (0%Z, 2000000000%Z, [[72;101;108;108;111;114;101;100;119;104;105;116;101]; [103;114;101;101;110]]); (2000000000%Z, 3500000000%Z, [[66;73;71]]) ]%N.
+Proof. exact ex_styled_to_ssa. Qed.
+Example C07_ttx_styled_example_ttml : exists dst d', convert_ttx_ttml ex_styled = Ok dst /\ read_ttml_bytes dst = Ok d' /\
+  ttml_to_plain d' = [ (0%Z, 2000000000%Z, [[72;101;108;108;111;114;101;100;119;104;105;116;101]; [103;114;101;101;110]]); (2000000000%Z, 3500000000%Z, [[66;73;71]]) ]%N.
+Proof. exact ex_styled_to_ttml. Qed.
+Example C07_ttx_styled_example_stl : exists dst, convert_ttx_stl ex_styled = Ok dst /\
+  stl_dec dst = Ok [ (0%Z, 2000000000%Z, [[72;101;108;108;111;32;114;101;100;32;119;104;105;116;101]; [103;114;101;101;110]]); (2000000000%Z, 3480000000%Z, [[66;73;71]]) ]%N.
+Proof. exact ex_styled_to_stl. Qed.
+Example C07_ttx_styled_example_vtt : cues_classless ex_classless_cs = true /\ exists dst, convert_ttx_vtt ex_classless = Ok dst /\
+  vtt_dec dst = Ok [ (0%Z, 2000000000%Z, [[72;101;108;108;111;98;108;117;101;119;104;105;116;101]; [103;114;101;101;110]]); (2000000000%Z, 3500000000%Z, [[66;73;71]]) ]%N.
+Proof. split; [exact (proj1 ex_classless_ok) | exact ex_classless_to_vtt]. Qed.
